@@ -1478,7 +1478,10 @@ udp_resolv_cb(void *arg)
 	}
 
 	udp_pipe_schedule(p);
-	udp_ep_start(ep);
+	if (!ep->started) {
+		// the receiver keeps running across connection attempts
+		udp_ep_start(ep);
+	}
 
 	// Send out the connection request.  We don't complete
 	// the user aio until we confirm a connection, so that
@@ -1503,12 +1506,14 @@ udp_ep_connect(void *arg, nni_aio *aio)
 		nni_aio_finish_error(aio, NNG_ECLOSED);
 		return;
 	}
-	if (ep->started) {
+	if (!nni_list_empty(&ep->connaios)) {
+		// One connection attempt at a time.  (The endpoint may well
+		// be started already: this is how a dialer tries again after
+		// its pipe was lost or its last attempt failed.)
 		nni_mtx_unlock(&ep->mtx);
 		nni_aio_finish_error(aio, NNG_EBUSY);
 		return;
 	}
-	NNI_ASSERT(nni_list_empty(&ep->connaios));
 	ep->dialer = true;
 
 	nni_list_append(&ep->connaios, aio);
